@@ -139,6 +139,7 @@ def run_pipeline(P, rep, rule="R-PIPE"):
             tj = P.ty(fn.crate, fn.impl["self"])
             if tj["k"] == "adt":
                 by[(tj["id"], fn.item_name)] = fn
+    by = {k: P.view(f) if k in sites else f for k, f in by.items()}
     bodies = []
     for k in sites:
         fn = by.get(k)
